@@ -24,7 +24,7 @@ from dataclasses import dataclass, field
 from typing import Any, Callable, Dict, List, Optional, Tuple
 
 from . import core
-from .lin import (Atom, DivA, FltDivA, Fn, Lin, ModA, Opaque, Slice, Sym, band, bor, compare,
+from .lin import (Atom, DivA, FltDivA, Fn, Lin, OrA, ModA, Opaque, Slice, Sym, band, bor, compare,
                   floordiv, is_pow2, mod, shl, shr)
 
 
@@ -184,6 +184,11 @@ FORK_LIMIT = 300
 FORKS_MAX = [0]
 
 
+def opaque_path(state) -> bool:
+    """the state lies on a path whose condition involves a value the interpreter could not model"""
+    return any((c.left.has_opaque() or c.right.has_opaque()) for c, _t, _w in state.path)
+
+
 def forks_reset() -> None:
     FORKS_MAX[0] = max(FORKS_MAX[0], FORKS[0])
     FORKS[0] = 0
@@ -261,6 +266,8 @@ def subst_atom(a: Atom, old: Sym, new: Sym) -> Lin:
         return floordiv(subst_lin(a.lin, old, new), a.m)
     if isinstance(a, FltDivA):
         return Lin.of(FltDivA(subst_lin(a.lin, old, new), a.k))
+    if isinstance(a, OrA):
+        return bor(subst_lin(a.x, old, new), subst_lin(a.y, old, new))[0]
     if isinstance(a, Fn):
         return Lin.of(Fn(a.name, tuple(subst_lin(x, old, new) for x in a.args), a.lo, a.hi))
     return Lin.of(a)
@@ -371,6 +378,8 @@ class Interp:
                         v = self.eval(n.value, st, rel)
                     except _Raise:
                         v = Unknown("module constant raises")
+                    except (_Fork, Budget, _Unmodelled, RecursionError):
+                        v = Unknown("module-level value not modelled")
                     if isinstance(v, FloatV):
                         v = FloatV(("name", f"{rel}:{tgt.id}", v.expr))
                     env[tgt.id] = v
@@ -871,6 +880,25 @@ class Interp:
                 s2.path.append((c, truth, where))
                 out.append((truth, s2))
             return out
+        if len(d.terms) == 1 and isinstance(d.terms[0][0], Sym) and d.terms[0][1] in (1, -1) and c.op in ("==", "!="):
+            # bare symbol equal / unequal to a constant: the equal side knows the value, the other side loses an end point
+            sym, coef = d.terms[0]
+            k = -d.const * coef
+            lo, hi = sym.lo, sym.hi
+            if (lo is not None and k < lo) or (hi is not None and k > hi):
+                return [(c.op == "!=", state)]
+            if lo is not None and lo == hi:
+                return [(c.op == "==", state)]
+            eq_state = state.fork()
+            refine(eq_state, sym, k)
+            eq_state.path.append((c, c.op == "==", where))
+            ne_state = state
+            if lo is not None and k == lo:
+                refine(ne_state, sym, Sym(sym.name, lo + 1, hi))
+            elif hi is not None and k == hi:
+                refine(ne_state, sym, Sym(sym.name, lo, hi - 1))
+            ne_state.path.append((c, c.op != "==", where))
+            return [(c.op == "==", eq_state), (c.op != "==", ne_state)]
         s_t = state.fork()
         s_t.path.append((c, True, where))
         s_f = state
@@ -913,6 +941,11 @@ class Interp:
                     return not v
                 if isinstance(v, CondV):
                     return v.negate()
+                if isinstance(v, Lin):          # not n  ==  (n == 0)
+                    d = compare(v, "==", Lin(0))
+                    return d if d is not None else CondV("==", v, Lin(0))
+                if isinstance(v, NoneV):
+                    return True
             if isinstance(e.op, ast.UAdd) and isinstance(v, Lin):
                 return v
             if isinstance(e.op, ast.Invert) and isinstance(v, Lin):
@@ -923,6 +956,20 @@ class Interp:
             r = self.eval(e.right, state, rel)
             return self.binop(e.op, l, r, state, e)
         if isinstance(e, ast.BoolOp):
+            if id(e) in state.call_memo:
+                return state.call_memo.pop(id(e))
+            if isinstance(e.op, ast.Or) and len(e.values) == 2:
+                # value semantics of `a or b`: a if it is truthy, else b (None and 0 are falsy)
+                first = self.eval(e.values[0], state, rel)
+                if isinstance(first, NoneV):
+                    return self.eval(e.values[1], state, rel)
+                if isinstance(first, Lin) and compare(first, "!=", Lin(0)) is None:
+                    alts = self.fork_on(CondV("!=", first, Lin(0)), state, core.loc(rel, e))
+                    if len(alts) == 2:
+                        forks = []
+                        for truth, s2 in alts:
+                            forks.append((s2, e, first if truth else self.eval(e.values[1], s2, rel)))
+                        raise _Fork(forks)
             vals = [self.eval(v, state, rel) for v in e.values]
             if all(isinstance(v, bool) for v in vals):
                 return all(vals) if isinstance(e.op, ast.And) else any(vals)
@@ -1576,6 +1623,8 @@ class Interp:
                 else:
                     return Unknown("enumerate start")
             return EnumV(args[0], start)
+        if name == "divmod" and len(args) == 2 and isinstance(args[0], Lin) and isinstance(args[1], Lin) and args[1].is_const() and args[1].const > 0:
+            return TupleV([floordiv(args[0], args[1].const), mod(args[0], args[1].const)])
         if name == "int" and len(args) == 1 and isinstance(args[0], Lin):
             return args[0]
         if name == "int" and len(args) == 1 and isinstance(args[0], FloatV) and self.float_floor(args[0]) is not None:
